@@ -297,7 +297,17 @@ def exec_assembly(r):
     """recipe -> [Assemble event] (plus twins executed on fresh copies of the inputs)"""
     loader.load()
     del KEEP[:]
-    vcls, mclss, vrec, mrecs = build_inputs(r)
+    try:
+        vcls, mclss, vrec, mrecs = build_inputs(r)
+    except Exception:  # noqa
+        # an input could not be stored at another origin with the library's own operator (that operator is judged by C13 and by
+        # the twins of C02): the assembly is run on the inputs as specified, without that preliminary step
+        r = copy.deepcopy(r)
+        for x in [r["vector"]] + r["modules"]:
+            x.pop("rot", None)
+            x.pop("_rotate_api", None)
+            x.pop("_rc_api", None)
+        vcls, mclss, vrec, mrecs = build_inputs(r)
     cutter = vcls.cutter
     from . import enz as enzmod
     s, o, k = enzmod.geometry(cutter)
@@ -374,7 +384,17 @@ def _exec_assembly_body(r, vcls, mclss, vrec, mrecs, inputs, wr, s, o, k, cutter
             if r.get("mcls") and r.get("mcls_swap"):
                 r2["mcls"] = list(r["mcls"])
                 r2["mcls"][tw["pos"]] = r["mcls_swap"]
-        vc2, mc2, vr2, mr2 = build_inputs(r2)
+        try:
+            vc2, mc2, vr2, mr2 = build_inputs(r2)
+        except BaseException as ex:  # noqa
+            # the library's own operator (>> / reverse_complement) refused to transform an input: the twin call cannot even be made
+            ev["twin"] = {"by": by, "pos": tw.get("pos", 0) + 1, "mod": {},
+                          "out": {"kind": "error", "exc": "InputTransform:" + type(ex).__name__, "moclo": False, "attr_ovh": [], "dup_ids": [], "seq": [],
+                                  "unused": [], "unused_o": [], "isa": ["InputTransform:" + type(ex).__name__], "desc": "", "letters": [], "nwarn": 0}}
+            evs = [ev]
+            if r.get("roundtrip") and prod is not None:
+                evs.append(roundtrip_event(prod))
+            return evs
         wr2 = None
         if by == "swap" and tw.get("reuse") and wr is not None:
             # "replace one module, keep the rest": the very same vector and module objects (and wrappers) are used again
